@@ -220,6 +220,10 @@ func (m *Machine) matchFormatted(t *tstr, s string) (value, bool) {
 	} else if f != "%s-%d" {
 		return nil, false
 	}
+	verbs := simpleVerbs(f)
+	if verbs == nil && strings.Contains(f, "%") {
+		return nil, false
+	}
 	var acc value = true
 	ai, pos := 0, 0
 	for i := 0; i < len(f); {
@@ -231,45 +235,64 @@ func (m *Machine) matchFormatted(t *tstr, s string) (value, bool) {
 			i++
 			continue
 		}
-		if i+1 >= len(f) {
-			return nil, false
-		}
-		verb := f[i+1]
-		i += 2
-		if verb == '%' {
+		if i+1 < len(f) && f[i+1] == '%' {
 			if pos >= len(s) || s[pos] != '%' {
 				return false, true
 			}
 			pos++
+			i += 2
 			continue
 		}
-		if (verb != 's' && verb != 'd' && verb != 'v') || ai >= len(t.args) {
+		if ai >= len(verbs) || ai >= len(t.args) {
 			return nil, false
 		}
+		vb := verbs[ai]
 		arg := t.args[ai]
 		ai++
+		i += len(vb.text)
 		switch a := arg.(type) {
 		case string:
+			// rendered when the tuple was built (with this very verb)
 			if !strings.HasPrefix(s[pos:], a) {
 				return false, true
 			}
 			pos += len(a)
 		case uint64, *term.Term:
-			if i < len(f) && (f[i] == '%' || (f[i] >= '0' && f[i] <= '9')) {
-				return nil, false // ambiguous reading
+			if vb.verb == 's' {
+				return nil, false
+			}
+			base := 10
+			isDigit := func(c byte) bool { return c >= '0' && c <= '9' }
+			if vb.verb == 'x' {
+				base = 16
+				isDigit = func(c byte) bool { return c >= '0' && c <= '9' || c >= 'a' && c <= 'f' }
+			} else if vb.verb == 'X' {
+				base = 16
+				isDigit = func(c byte) bool { return c >= '0' && c <= '9' || c >= 'A' && c <= 'F' }
+			}
+			// the reading is unambiguous only if what follows cannot continue the digit run
+			if i < len(f) && (f[i] == '%' || isDigit(f[i])) {
+				return nil, false
 			}
 			st := pos
-			for pos < len(s) && s[pos] >= '0' && s[pos] <= '9' {
+			for pos < len(s) && isDigit(s[pos]) {
 				pos++
 			}
-			if pos == st || pos-st > 19 || (pos-st > 1 && s[st] == '0') {
+			n := pos - st
+			if n == 0 || n > 20 || n < vb.width {
 				return false, true
 			}
-			n, err := strconv.ParseUint(s[st:pos], 10, 64)
+			if n > 1 && s[st] == '0' && n > vb.width {
+				return false, true // a leading zero is padding, and padding never exceeds the width
+			}
+			val, err := strconv.ParseUint(s[st:pos], base, 64)
 			if err != nil {
 				return false, true
 			}
-			acc = m.and(acc, m.equals(nil, a, n))
+			if tt, isT := a.(*term.Term); isT && tt.W < 64 && val>>uint(tt.W) != 0 {
+				return false, true // the text names a number the argument's type cannot hold
+			}
+			acc = m.and(acc, m.equals(nil, a, val))
 		default:
 			return nil, false
 		}
